@@ -120,6 +120,62 @@ func (a Affine) IsScaled(c, k int, leaf string) bool {
 // affine leaves: the entry index i+offset becomes the leaf "@e"; other affine forms become "aff{...}" with the
 // loop counter rendered as "i", the chunk base as "off" and the chunk size as "bs".
 func NormIdx(t *pt.Term, names map[string]string, entry func(a Affine) bool) *pt.Term {
+	return NormIdxS(t, names, nil, entry)
+}
+
+// Add returns a + k*c.
+func (a Affine) AddScaled(c Affine, k int) Affine {
+	r := Affine{Const: a.Const + k*c.Const, Coef: map[string]int{}, OK: a.OK && c.OK}
+	for l, v := range a.Coef {
+		r.Coef[l] += v
+	}
+	for l, v := range c.Coef {
+		r.Coef[l] += k * v
+	}
+	for l, v := range r.Coef {
+		if v == 0 {
+			delete(r.Coef, l)
+		}
+	}
+	return r
+}
+
+// Apply renames leaves and substitutes leaves by affine forms (over already-canonical leaf names).
+func (a Affine) Apply(names map[string]string, subst map[string]Affine) Affine {
+	r := Affine{Const: a.Const, Coef: map[string]int{}, OK: a.OK}
+	for k, v := range a.Coef {
+		if s, ok := subst[k]; ok {
+			r = r.AddScaled(s, v)
+		} else if n, ok := names[k]; ok {
+			r.Coef[n] += v
+		} else {
+			r.Coef[k] += v
+		}
+	}
+	for l, v := range r.Coef {
+		if v == 0 {
+			delete(r.Coef, l)
+		}
+	}
+	return r
+}
+
+// Equal compares two affine forms.
+func (a Affine) Equal(c Affine) bool {
+	if !a.OK || !c.OK || a.Const != c.Const || len(a.Coef) != len(c.Coef) {
+		return false
+	}
+	for k, v := range a.Coef {
+		if c.Coef[k] != v {
+			return false
+		}
+	}
+	return true
+}
+
+// NormIdxS is NormIdx with leaf substitution: a leaf listed in subst is replaced by its affine form (whose leaves are
+// canonical names) before the entry test and rendering. The entry predicate sees the canonical form.
+func NormIdxS(t *pt.Term, names map[string]string, subst map[string]Affine, entry func(a Affine) bool) *pt.Term {
 	memo := map[*pt.Term]*pt.Term{}
 	var norm func(t *pt.Term) *pt.Term
 	idx := func(t *pt.Term) *pt.Term {
@@ -130,16 +186,9 @@ func NormIdx(t *pt.Term, names map[string]string, entry func(a Affine) bool) *pt
 		if !a.OK {
 			return norm(t)
 		}
-		if entry(a) {
+		b := a.Apply(names, subst)
+		if entry(b) {
 			return pt.Leaf("@e")
-		}
-		b := Affine{Const: a.Const, Coef: map[string]int{}, OK: true}
-		for k, v := range a.Coef {
-			if n, ok := names[k]; ok {
-				b.Coef[n] += v
-			} else {
-				b.Coef[k] += v
-			}
 		}
 		if len(b.Coef) == 0 {
 			return pt.Leaf("#" + strconv.Itoa(b.Const))
